@@ -3,8 +3,25 @@ pub mod io {
     use vstd::prelude::*;
     #[verifier::external_body]
     pub struct Error { e: u8 }
-    #[derive(Clone, Copy, PartialEq, Eq)]
-    pub enum ErrorKind { NotFound, PermissionDenied, AlreadyExists, InvalidData, Other }
+    #[derive(Clone, Copy)]
+    pub enum ErrorKind { NotFound, PermissionDenied, AlreadyExists, InvalidData, InvalidInput, Other }
+    impl PartialEq for ErrorKind {
+        fn eq(&self, other: &Self) -> (r: bool) ensures r == (*self == *other) {
+            match (self, other) {
+                (ErrorKind::NotFound, ErrorKind::NotFound) => true,
+                (ErrorKind::PermissionDenied, ErrorKind::PermissionDenied) => true,
+                (ErrorKind::AlreadyExists, ErrorKind::AlreadyExists) => true,
+                (ErrorKind::InvalidData, ErrorKind::InvalidData) => true,
+                (ErrorKind::InvalidInput, ErrorKind::InvalidInput) => true,
+                (ErrorKind::Other, ErrorKind::Other) => true,
+                _ => false,
+            }
+        }
+    }
+    impl vstd::std_specs::cmp::PartialEqSpecImpl for ErrorKind {
+        open spec fn obeys_eq_spec() -> bool { true }
+        open spec fn eq_spec(&self, other: &Self) -> bool { *self == *other }
+    }
     pub type Result<T> = ::std::result::Result<T, Error>;
     impl Error {
         pub uninterp spec fn spec_kind(&self) -> ErrorKind;
@@ -39,7 +56,7 @@ pub mod io {
         #[verifier::external_body]
         pub fn lines(self) -> (r: crate::shims::iter::Iter<Result<String>>)
             ensures
-                self.file_view().reliable ==> !r@.endless && r@.items == lines_of(self.file_view().content.subrange(self.file_view().pos, self.file_view().content.len() as int)),
+                self.file_view().reliable ==> !r@.endless && r@.items == lines_of(crate::shims::std::fs::unread(self.file_view())),
                 r@.endless ==> r@.items.len() > 0 && is_hard_error(r@.items.last()),
         { unimplemented!() }
     }
@@ -64,6 +81,8 @@ pub mod fs {
     pub open spec fn mode_read() -> OpenMode { OpenMode { read: true, write: false, append: false, create: false, truncate: false } }
     impl View for File { type V = FileV; uninterp spec fn view(&self) -> FileV; }
 
+    /// the bytes a descriptor has not read yet
+    pub open spec fn unread(f: FileV) -> Seq<u8> { if f.pos == 0 { f.content } else { f.content.subrange(f.pos, f.content.len() as int) } }
     impl File {
         #[verifier::external_body]
         pub fn open<A: PathArg>(p: A, Tracked(w): Tracked<&World>) -> (r: io::Result<File>)
